@@ -17,6 +17,9 @@
 #include <asmjit/x86.h>
 #include <asmjit/a64.h>
 #include <memory>
+#include <csignal>
+#include <sys/time.h>
+#include <unistd.h>
 #include <stdexcept>
 #include "vh.h"
 
@@ -615,4 +618,20 @@ std::string step(const std::string& line) {
 
 } // namespace
 
-int main() { return vh::line_loop(step); }
+// A call of the real code that does not return (e.g. a cyclic node list) must be told apart from a slow machine: the limit is CPU
+// time of this process (600 s; a whole chunk of sessions needs a few seconds), never wall-clock time.
+static void on_cpu_limit(int) {
+  static const char msg[] = "C14-HARNESS: CPU time limit exceeded - the call does not return\n";
+  ssize_t ignored = write(2, msg, sizeof(msg) - 1);
+  (void)ignored;
+  _exit(98);
+}
+
+int main() {
+  struct itimerval it;
+  memset(&it, 0, sizeof(it));
+  it.it_value.tv_sec = 600;
+  signal(SIGPROF, on_cpu_limit);
+  setitimer(ITIMER_PROF, &it, nullptr);
+  return vh::line_loop(step);
+}
